@@ -67,7 +67,12 @@ def validate(v, trace, name):
 def run(v):
     wd = common.workdir("c05")
     thorough = v.tier == "thorough"
-    mcs = [("MC_LintGroup_onelang.cfg", None), ("MC_LintGroup_twolang_fixed.cfg", None)]
+    mcs = [("MC_LintGroup_onelang.cfg", None), ("MC_LintGroup_twolang_fixed.cfg", None), ("MC_LintGroup_glue.cfg", None)]
+    # a seeded deviation (a pattern rule reading what stands before its chunk) must be refuted
+    rp = common.tlc(os.path.join(SPEC, "mc", "MC_LintGroup.tla"), os.path.join(SPEC, "mc", "MC_LintGroup_dev_peek.cfg"), "c05_mc_peek",
+                    workers=2, timeout=600, coverage=False)
+    if rp.violated != "CacheUnobservable":
+        raise common.ToolError("MC_LintGroup: the peeking-rule deviation is not refuted (vacuous invariant)")
     if thorough:
         mcs.append(("MC_LintGroup_thorough.cfg", None))
     for cfg, _ in mcs:
@@ -93,7 +98,7 @@ def run(v):
     _, corp = corpus.harvest()
     trace = os.path.join(wd, "trace.ndjson")
     args = ["c05", "--cases", cases, "--out", trace, "--seed", v.seed, "--corpus", corp,
-            "--sessions", 2000 if thorough else 150, "--family-sentences", 646 if thorough else 80, "--thread-docs", 2000 if thorough else 200]
+            "--sessions", 2000 if thorough else 150, "--glue-families", 600 if thorough else 150, "--family-sentences", 646 if thorough else 80, "--thread-docs", 2000 if thorough else 200]
     rc, out, err = common.run_hv(args, timeout=7200)
     if rc != 0:
         raise common.ToolError("hv c05 failed: " + err[-2000:])
